@@ -99,7 +99,8 @@ def get(a, ixs, spelling, kinds, dims=None, tol=None, keepdims=False, mode="labe
 def put(a, ixs, value, spelling, kinds, dims=None, mode="label", **kw):
     """assignment spellings (C03, C20).  Returns the modified copy when inplace=False."""
     dims = dims or list(a.dims)
-    if mode == "position" or spelling in ("ixset", "ilocset", "putpos"):
+    own = getattr(a, "_indexing", None) or "label"       # the array's own mode ('indexing.by' when it was built): .ix toggles away from it
+    if mode == "position" or spelling in ("ilocset", "putpos") or (spelling == "ixset" and own != "position"):
         kinds = ["i"] * max(len(ixs), len(kinds))
     t = dec_tuple(ixs, kinds)
     nf = nonfull(ixs)
@@ -136,4 +137,6 @@ def put(a, ixs, value, spelling, kinds, dims=None, mode="label", **kw):
         return None
     if spelling == "putpos":
         return a.put(t, value, indexing="position", **kw)
+    if spelling == "putlab":
+        return a.put(t, value, indexing="label", **kw)
     raise ValueError(spelling)
